@@ -227,6 +227,31 @@ func runC05Script(rt *rapid.T) {
 		changes++
 		unreachable()
 	}
+	// dwell lets d pass. Two timers can end the link meanwhile: T7 counts from the latest entry to
+	// NotSelected (and never hits a Selected session); an active endpoint's own unanswered Select.req
+	// is a failed control transaction after T6 (a communications failure in any state).
+	dwell := func(remaining time.Duration) {
+		var dl time.Time
+		if !selected {
+			dl = nsSince.Add(c05T7)
+		}
+		if hasOpenSel {
+			if t6 := selSentAt.Add(c05T6); dl.IsZero() || t6.Before(dl) {
+				dl = t6
+			}
+		}
+		if dl.IsZero() || dl.After(time.Now().Add(remaining)) {
+			time.Sleep(remaining)
+		} else {
+			if rem := time.Until(dl); rem > time.Millisecond {
+				time.Sleep(rem - time.Millisecond)
+				sync("dwelling until just before the timer")
+			}
+			time.Sleep(time.Until(dl) + time.Millisecond)
+			linkLost()
+			sawT7 = true
+		}
+	}
 	doOpen()
 	sync("Open")
 	steps := rapid.IntRange(3, 14).Draw(rt, "steps")
@@ -250,6 +275,9 @@ func runC05Script(rt *rapid.T) {
 			}
 			if selected && !lingeredOnce {
 				ops = append(ops, "wedged-writer")
+			}
+			if !selected {
+				ops = append(ops, "t7-rearm", "t7-rearm")
 			}
 		}
 		op := rapid.SampledFrom(ops).Draw(rt, "op")
@@ -327,27 +355,29 @@ func runC05Script(rt *rapid.T) {
 			// The dwell is a fraction of T7 or a little more than T7: short dwells between a connect, a
 			// select and a deselect separate the instants at which the successive T7s were armed, so
 			// that a timer that should have been cancelled expires visibly earlier than the live one.
-			remaining := rapid.SampledFrom([]time.Duration{c05T7 / 4, c05T7 / 2, c05T7 + 50*time.Millisecond, c05T7 + 50*time.Millisecond}).Draw(rt, "dwellFor")
-			var dl time.Time
-			if !selected {
-				dl = nsSince.Add(c05T7)
+			dwell(rapid.SampledFrom([]time.Duration{c05T7 / 4, c05T7 / 2, c05T7 + 50*time.Millisecond, c05T7 + 50*time.Millisecond}).Draw(rt, "dwellFor"))
+		case "t7-rearm":
+			// One composite step for the history that separates every T7 arming instant of a
+			// generation: a short dwell after the connect, select, a short dwell, deselect, then a
+			// dwell past T7 - the link must end exactly T7 after the DESELECT, whatever was armed before.
+			short := []time.Duration{c05T7 / 4, c05T7 / 2}
+			dwell(rapid.SampledFrom(short).Draw(rt, "rearmDwell1"))
+			if !linkUp {
+				break
 			}
-			if hasOpenSel {
-				if t6 := selSentAt.Add(c05T6); dl.IsZero() || t6.Before(dl) {
-					dl = t6
-				}
-			}
-			if dl.IsZero() || dl.After(time.Now().Add(remaining)) {
-				time.Sleep(remaining)
+			if active && hasOpenSel {
+				_ = p.Send(e37.Control(e37.SelectRsp, 0xffff, 0, 0, openSel))
+				hasOpenSel = false
 			} else {
-				if rem := time.Until(dl); rem > time.Millisecond {
-					time.Sleep(rem - time.Millisecond)
-					sync("dwelling until just before the timer")
-				}
-				time.Sleep(time.Until(dl) + time.Millisecond)
-				linkLost()
-				sawT7 = true
+				_ = p.Send(sel)
 			}
+			applySel()
+			sync("t7-rearm: selected")
+			dwell(rapid.SampledFrom(short).Draw(rt, "rearmDwell2"))
+			_ = p.Send(desel)
+			applyDesel()
+			sync("t7-rearm: deselected")
+			dwell(c05T7 + 50*time.Millisecond)
 		case "wedge-drop-reconnect":
 			// The application's data handler blocks; the link dies; a send notices (write error) and the
 			// generation is torn down, its receive goroutine being abandoned after the close timeout;
